@@ -112,6 +112,19 @@ def derive(t, op):
         return xd.Table.concatenate([t] + [t.rows[mk_sel(s)] for s in op[1]])
     if kind == "d_t":
         return t._t
+    if kind == "d_reindex":
+        # the index column is removed and a column with the index name is assigned again
+        idx = t._index
+        if op[2] == "pop":
+            t.pop(idx)
+        else:
+            del t[idx]
+        vals = np.array(op[1], dtype=object)
+        if op[3] == "attr":
+            setattr(t, idx, vals)
+        else:
+            t[idx] = vals
+        return t
     raise RuntimeError("unknown derivation " + kind)
 
 
@@ -182,7 +195,10 @@ def run_case(case):
                     t[op[1]] = vals
                 out = ["unit"]; exp = None
             elif kind == "delcol":
-                del t[op[1]]
+                if len(op) > 2 and op[2] == "pop":
+                    t.pop(op[1])
+                else:
+                    del t[op[1]]
                 out = ["unit"]; exp = None
             elif kind == "unique":
                 labs = [str(x) for x in t.cols.get_index_unique()]
